@@ -87,7 +87,16 @@ impl QuakeState {
         let nx = gen::count(t, 20);
         let mut extras: Vec<(String, String)> = Vec::new();
         for i in 0 .. nx {
-            let mut k = gen::word(t, 12);
+            // mostly invented keys, now and then one that real servers send (and that a client might be
+            // tempted to interpret)
+            let mut k = if t.draw(DATA, 5) == 0 {
+                (*t.pick(DATA, &["clients", "sv_maxRate", "g_gametype", "protocol", "gamename", "sv_privateClients", "dmflags", "timelimit", "fraglimit", "*gamedir", "needpass", "deathmatch", "teamplay", "bots", "numplayers", "players", "sv_maxclients_", "Hostname", "MAPNAME"])).to_string()
+            } else {
+                gen::word(t, 12)
+            };
+            if gen::tame_keys() && !k.chars().all(|c| c.is_ascii_alphanumeric() || c == '_') {
+                k = gen::word(t, 12);
+            }
             if Q_KNOWN.contains(&k.as_str()) || extras.iter().any(|(kk, _)| *kk == k) {
                 k = format!("x{i}{k}");
             }
